@@ -303,7 +303,10 @@ def compare_bench(b0, others, cfgs, W):
                 if sure:
                     out.append((k, 'decision', f"event {k}: shipped config -> {ox}, {tag} -> {oy}"))
                 break       # histories diverge from here on
-            if not cmpr.request_ok(b0.events_seen[k]) or not all(cmpr.state_floor_ok(W, sa) for (_, sa, _) in x['named']):
+            # (the floor is looked at in both replicas' states: what one configuration holds as exactly nothing - a drained
+            # vessel, a solvent of which none was needed - another may hold as a rounding residue)
+            if not cmpr.request_ok(b0.events_seen[k]) or not all(cmpr.state_floor_ok(W, sa) for (_, sa, _) in x['named']) \
+                    or not all(cmpr.state_floor_ok(W, sb) for (_, sb, _) in y['named']):
                 cmpr.drifted = True
             if cmpr.drifted:
                 b0_stats_drift(a0)
